@@ -189,7 +189,7 @@ def main(tier, replay):
     else:
         if replay:
             case = json.load(open(replay))
-            r = run_seq(exe, modelrun, env, case.get("sequence") or [], trace=True, cls="rpc" if case.get("oracle") == "handler_glue" else "replay")
+            r = run_seq(exe, modelrun, env, case.get("sequence") or [], trace=True, cls=(case.get("class") if str(case.get("class")).startswith("rpc") else "rpc") if case.get("oracle") == "handler_glue" else "replay")
             res = r
             vlib.log("replayed %d commands: %d oracle failures, %d model mismatches" % (len(case.get("sequence") or []), len(r["fails"]), len(r["mism"])))
         else:
@@ -200,7 +200,7 @@ def main(tier, replay):
 
         def describe(item, kind):
             seq = item["sequence"] or []
-            tr = run_seq(exe, modelrun, env, seq, trace=True, cls="rpc" if item["what"] == "handler_glue" else "replay")
+            tr = run_seq(exe, modelrun, env, seq, trace=True, cls=item["class"] if item["what"] == "handler_glue" and item["class"].startswith("rpc") else "replay")
             obj = {"kind": kind, "oracle" if kind == "property-oracle" else "correspondence": item["what"], "class": item["class"],
                    "sequence": seq, "op_index": item["op_index"], "detail": item["detail"],
                    "trace": [dict(zip(["cmd", "impl", "model", "impl_state", "model_state"], t)) for t in tr["trace"]],
@@ -215,7 +215,7 @@ def main(tier, replay):
                 break
             if item["sequence"]:
                 what = item["what"]
-                cls = "rpc" if what == "handler_glue" else "replay"
+                cls = item["class"] if what == "handler_glue" and item["class"].startswith("rpc") else "replay"
                 small = ddmin(item["sequence"], lambda c: any(f["what"] == what for f in run_seq(exe, modelrun, env, c, cls=cls)["fails"]))
                 r2 = run_seq(exe, modelrun, env, small, cls=cls)
                 f2 = [f for f in r2["fails"] if f["what"] == what]
